@@ -143,3 +143,87 @@ def sleeper(n):
 
 def ident(*a, **k):
     return (a, tuple(sorted(k.items())))
+
+
+# ---------------------------------------------------------------------------------------------
+# stateful workers (C16): run() assigns user_state m times, then behaves like work()
+STATE_LOG = []
+
+
+def _stateful_run(self, ending, idx, m):
+    STATE_LOG.append(("initial", self.user_state))
+    for i in range(m):
+        self.user_state = ("s", i)
+        STATE_LOG.append(("assigned", ("s", i)))
+        _pt("state-%d" % i)
+    return work(ending, idx)
+
+
+def _mk_stateful():
+    from pyworkers.thread import ThreadWorker
+    from pyworkers.process import ProcessWorker
+    from pyworkers.remote import RemoteWorker
+    from pyworkers.persistent_thread import PersistentThreadWorker
+    from pyworkers.persistent_process import PersistentProcessWorker
+    from pyworkers.persistent_remote import PersistentRemoteWorker
+    out = []
+    for base in (ThreadWorker, ProcessWorker, RemoteWorker, PersistentThreadWorker, PersistentProcessWorker, PersistentRemoteWorker):
+        name = "Stateful" + base.__name__
+        cls = type(base)(name, (base,), {"run": _stateful_run, "__module__": __name__, "__qualname__": name})
+        globals()[name] = cls
+        out.append(cls)
+    return out
+
+
+STATEFUL = _mk_stateful()
+
+
+def make_stateful(world, kind, ending, idx, m, init_state):
+    from . import wsim
+    del STATE_LOG[:]
+    kw = {}
+    if wsim.is_remote_kind(kind):
+        kw["host"] = wsim.SERVER_ADDR
+    return STATEFUL[kind](None, args=[ending, idx, m], run=True, init_state=init_state, **kw)
+
+
+# ---------------------------------------------------------------------------------------------
+# C05 / C06: a target that reports exactly what it was called with, then damages its arguments
+def record(*args, **kwargs):
+    seen = ("seen", tuple(_freeze(a) for a in args), tuple(sorted((k, _freeze(v)) for k, v in kwargs.items())))
+    _pt("record")
+    for a in args:
+        if isinstance(a, list):
+            a.append("damaged")
+    for k in list(kwargs):
+        if isinstance(kwargs[k], list):
+            kwargs[k].append("damaged")
+        kwargs[k] = "overwritten"
+    return seen
+
+
+def _freeze(v):
+    if isinstance(v, list):
+        return ("list",) + tuple(_freeze(x) for x in v)
+    if isinstance(v, tuple):
+        return ("tuple",) + tuple(_freeze(x) for x in v)
+    return v
+
+
+def spec_call(defaults, dkw, extra, ekw):
+    """Reference merge semantics, written from the statement (pristine defaults every time)."""
+    import copy
+    a = list(copy.deepcopy(defaults)) if defaults else []
+    a[0:len(extra)] = list(extra)
+    k = dict(copy.deepcopy(dkw) if dkw else {})
+    k.update(ekw)
+    return ("seen", tuple(_freeze(x) for x in a), tuple(sorted((kk, _freeze(v)) for kk, v in k.items())))
+
+
+def item(i, poison=-1):
+    """C06 target: value identifies the input; raises on the poison input."""
+    _pt("item-a")
+    if i == poison:
+        raise Boom("poison", i)
+    _pt("item-b")
+    return ("item", i)
